@@ -267,6 +267,9 @@ func lexCommentLine(l *lexer) stateFn {
 	return lexStmt
 }
 
+// maxBlockDepth is the deepest nesting of statement blocks that is parsed.
+const maxBlockDepth = 10000
+
 // lexStmt scans a statement
 func lexStmt(l *lexer) stateFn {
 	for {
@@ -288,6 +291,12 @@ func lexStmt(l *lexer) stateFn {
 		case r == '{':
 			l.emit(itemLeftBrace)
 			l.bracketDepth++
+			if l.bracketDepth > maxBlockDepth {
+				// The parser recurses once per open block: without a
+				// limit a few megabytes of "a{a{a{" exhaust the
+				// goroutine stack, which ends the process.
+				return l.errorf("statement blocks nested deeper than %d", maxBlockDepth)
+			}
 			return lexStmt
 		case r == '}':
 			l.emit(itemRightBrace)
